@@ -139,6 +139,7 @@ def main(argv):
     if len(argv) < 2:
         print(__doc__); return 2
     pid = argv[0].upper()
+    from . import env  # imports the fxpmath under test ($FXP_REPO first on sys.path) before any property module does
     mod = importlib.import_module('harness.props.' + pid.lower())
     seed = int(os.environ.get('VERIF_SEED', '0'))
     procs = int(os.environ.get('VERIF_PROCS', str(min(16, os.cpu_count() or 1))))
@@ -259,7 +260,12 @@ def main(argv):
             line = v[1].split(' | ')[0]
             if shr is not None:
                 try:
-                    line = shr(line, lambda l: judge(exec_lines(mod, [l], 1))[0][0][1:2] == '0')
+                    def _still_fails(l):
+                        fl_ = exec_lines(mod, [l], 1)[0]
+                        if 'EXC:AssertionError' in fl_ and 'EXC:AssertionError' not in v[1]:
+                            return False      # the shrunk line violates a precondition of the harness itself
+                        return judge([fl_])[0][0][1:2] == '0'
+                    line = shr(line, _still_fails)
                 except Exception:
                     pass
             fl = exec_lines(mod, [line], 1)[0]
